@@ -129,6 +129,8 @@ func (t tcase) parent(k int) int {
 		return -3
 	case "arr":
 		return -4
+	case "nil":
+		return -5
 	case "bear":
 		return o.Of
 	case "bro", "broof":
@@ -237,6 +239,8 @@ func (t tcase) defs() string {
 			fmt.Fprintf(&sb, "v%d := \"s\".bear(%s)\n", k, l)
 		case "arr":
 			fmt.Fprintf(&sb, "v%d := [3, 4].bear(%s)\n", k, l)
+		case "nil":
+			fmt.Fprintf(&sb, "v%d := nil.bear(%s)\n", k, l)
 		case "bear":
 			fmt.Fprintf(&sb, "v%d := v%d.bear(%s)\n", k, o.Of, l)
 		case "bro":
@@ -262,6 +266,9 @@ type probe struct {
 func (t tcase) probes() []probe {
 	var ps []probe
 	n := len(t.Objs)
+	// the same property called on all objects of the forest by one list chain with three arguments (one argument
+	// array serves every element: a lookup that falls back to _missing must not disturb the next element's call)
+	lcRecv, lcWant := map[string][]string{}, map[string][]string{}
 	for k := 0; k < n; k++ {
 		ch := t.chain(k)
 		names := []string{"a", "b", "c"}
@@ -310,6 +317,10 @@ func (t tcase) probes() []probe {
 				return probe{src: src, want: "E:NoPropErr: property `" + name + "` is not defined.", what: "call/no-prop", raises: true}
 			}
 			ps = append(ps, call("nil"), call("9"))
+			if p9 := call("9"); !p9.raises && name != "S" {
+				lcRecv[name] = append(lcRecv[name], v)
+				lcWant[name] = append(lcWant[name], p9.want)
+			}
 			// indexing by symbol and which agree with the same walk
 			switch {
 			case owner >= 0 && t.own(owner).kind(name) == 'v':
@@ -339,6 +350,8 @@ func (t tcase) probes() []probe {
 			ps = append(ps, probe{src: v + ".proto == [3, 4]", want: "true", what: "proto"})
 		case p == -3:
 			ps = append(ps, probe{src: v + `.proto == "s"`, want: "true", what: "proto"})
+		case p == -5:
+			ps = append(ps, probe{src: v + ".proto == nil", want: "true", what: "proto"})
 		}
 		// ancestors (user objects only: built-in prototypes have no id and are dropped by the list chain)
 		ids := []string{}
@@ -348,6 +361,8 @@ func (t tcase) probes() []probe {
 		ps = append(ps, probe{src: v + ".ancestors@{|x| x['" + t.idn() + "]}", want: "[" + strings.Join(ids, ", ") + "]", what: "ancestors"})
 		last := "BaseObj"
 		ps = append(ps, probe{src: v + ".ancestors[-1] == " + last, want: "true", what: "ancestors-end"})
+		// whatever the root is, the walk passes Obj and ends at BaseObj, and kindOf? agrees
+		ps = append(ps, probe{src: "[" + v + ".ancestors[-2] == Obj, " + v + ".kindOf?(Obj), " + v + ".kindOf?(BaseObj)]", want: "[true, true, true]", what: "ancestors-builtin-part"})
 		// keys
 		pub := []string{`"id"`}
 		if t.own(k).PID {
@@ -401,6 +416,11 @@ func (t tcase) probes() []probe {
 		rootName := map[int]string{-1: "Obj", -2: "Int", -3: "Str", -4: "Arr"}[t.root(k)]
 		ps = append(ps, probe{src: v + ".kindOf?(" + rootName + ")", want: "true", what: "kindOf-builtin"})
 		ps = append(ps, probe{src: v + ".kindOf?(BaseObj)", want: "true", what: "kindOf-builtin"})
+	}
+	for _, name := range []string{"a", "b", "c"} {
+		if len(lcRecv[name]) >= 2 {
+			ps = append(ps, probe{src: "[" + strings.Join(lcRecv[name], ", ") + "]@" + name + "(9, 8, 7)", want: "[" + strings.Join(lcWant[name], ", ") + "]", what: "list-chain-call"})
+		}
 	}
 	return ps
 }
@@ -523,6 +543,7 @@ func gen(depth int, ls []odef, emit func(tcase)) {
 				with("int", 0)
 				with("str", 0)
 				with("arr", 0)
+				with("nil", 0)
 			}
 			for j := range objs {
 				with("bear", j)
